@@ -555,7 +555,7 @@ func genIlCase(t *rapid.T) ilCase {
 					line = rapid.SampledFrom([]string{"go wtime 0 btime 0", "go wtime -40 btime -40", "go wtime 60000", "go btime 60000", "go movestogo 5",
 						"go wtime 1 btime 1 movestogo 1", "go depth 2 wtime 0 btime 0", "go wtime 0 btime 0 movestogo 0",
 						"go wtime 1000 btime 1000 movestogo 9223372036854775807", "go wtime 1000 btime 1000 movestogo 4611686018427387903", "go wtime 9223372036854 btime 9223372036854 movestogo 2",
-						"go wtime 1000 btime 1000 movestogo -9223372036854775808", "go depth 2147483648", "go depth -1 movetime 20"}).Draw(t, "clockline")
+						"go wtime 1000 btime 1000 movestogo -9223372036854775808", "go depth 2147483648", "go depth -1 movetime 20", "go movetime 0", "go movetime -5"}).Draw(t, "clockline")
 				}
 			}
 			if !c.Gated && (line == "go infinite" || (line == "go" && c.Engine == "morlock")) {
